@@ -200,6 +200,37 @@ fn decoder_sweep(tier: &str) -> (Vec<Violation>, u64) {
             n += k;
         }
     }
+    // (g) a tail fragment of multi-byte characters and a short head fragment, every buffer size 0..=64:
+    //     an overflow in the tail must stay an overflow although the head would fit into the spare bytes
+    {
+        let tails: [u16; 4] = [0x41, 0xE9, 0x20AC, 0x3042];
+        let mut cases: Vec<(Vec<[u16; 13]>, usize)> = Vec::new();
+        for &t in &tails {
+            for head_len in 0..=4usize {
+                let mut head = [0xFFFFu16; 13];
+                for h in head.iter_mut().take(head_len) {
+                    *h = 0x41;
+                }
+                head[head_len] = 0;
+                let tail = [t; 13];
+                let mut pair_tail = [0u16; 13];
+                for (i, u) in pair_tail.iter_mut().enumerate() {
+                    *u = if i % 2 == 0 { 0xD83D } else { 0xDE00 };
+                }
+                pair_tail[12] = 0x41;
+                for size in 0..=64usize {
+                    cases.push((vec![head, tail], size));
+                    cases.push((vec![head, pair_tail], size));
+                    cases.push((vec![head, tail, tail], size));
+                }
+            }
+        }
+        let res: Vec<Option<Violation>> = par_map(cases.len(), |i| decode_case(&cases[i].0, cases[i].1));
+        n += cases.len() as u64;
+        for x in res.into_iter().flatten() {
+            push_unique(&mut viols, Some(x));
+        }
+    }
     let _ = tier;
     let pos4 = [0usize, 1, 11, 12];
     // (a) one fragment, 4 positions over all classes
